@@ -262,7 +262,7 @@ class Builtin2Mixin:
         return SV(ref(r), 'ref', self.cls('Exception'))
 
     def record_user_call(self, st: St, fterm, args: Args):
-        ev = self.alloc(st, self.cls('object'))
+        ev = self.alloc(st, self.cls('UserCallEvent'))
         r = r_of(ev.term)
         self.hstore(st, r, 'fn', fterm)
         if args.tail is None:
@@ -275,6 +275,10 @@ class Builtin2Mixin:
         self.hstore(st, r, 'args', tup)
         kd = self.materialise_kwdict(st, KwDictV(args.kw, args.kwrest))
         self.hstore(st, r, 'kwargs', kd.term)
+        self.hstore(st, r, 'raised', none)
+        self.hstore(st, r, 'awaited', none)
+        self.hstore(st, r, 'result', none)
+        st.ghost['OWN'] = z3.Store(st.ghost['OWN'], r_of(kd.term), TRUE)
         st.TR = z3.Concat(st.TR, z3.Unit(ev.term))
         return ev
 
@@ -283,33 +287,32 @@ class Builtin2Mixin:
         pol = self.config.get('user_havoc', 'all')
         if pol == 'none':
             return
-        protected = [self.cls(q) for q in self.config.get('protected_classes', [])]
+        protected = [self.cls(q) for q in self.config.get('protected_classes', [])] + [self.cls('UserCallEvent')]
         oldH, oldDH, oldDV, oldDL, oldLS = st.H, st.DH, st.DV, st.DL, st.LS
         tag = smt._cnt[0] = smt._cnt[0] + 1
-        st.H = z3.Const(f'H!u{tag}', smt.HeapSort)
-        st.DH = z3.Const(f'DH!u{tag}', smt.DHSort)
-        st.DV = z3.Const(f'DV!u{tag}', smt.DVSort)
-        st.DL = z3.Const(f'DL!u{tag}', smt.DLSort)
-        st.LS = z3.Const(f'LS!u{tag}', smt.LSSort)
+        fH = z3.Const(f'H!u{tag}', smt.HeapSort)
+        fDH = z3.Const(f'DH!u{tag}', smt.DHSort)
+        fDV = z3.Const(f'DV!u{tag}', smt.DVSort)
+        fDL = z3.Const(f'DL!u{tag}', smt.DLSort)
+        fLS = z3.Const(f'LS!u{tag}', smt.LSSort)
         A0 = st.A
         st.A = z3.Const(f'A!u{tag}', smt.Int)
         st.assume(st.A >= A0)
         r = z3.Const('r!q', smt.Int)
-        ids = [c.id for p in protected for c in self.index.subclasses(p)]
+        ids = sorted({c.id for p in protected for c in self.index.subclasses(p)})
+        # the new heap is given as a lambda: protected objects / owned containers / tuples keep their contents
         if ids:
-            prot = OR(*[z3.Select(st.CL, r) == I(i) for i in sorted(set(ids))])
-            st.assume(z3.ForAll([r], z3.Implies(prot, z3.Select(st.H, r) == z3.Select(oldH, r)),
-                                patterns=[z3.Select(st.H, r)]))
-        # containers flagged as owned (ghost set OWN) are not touched by user code
+            prot = OR(*[z3.Select(st.CL, r) == I(i) for i in ids])
+            st.H = z3.Lambda([r], z3.If(prot, z3.Select(oldH, r), z3.Select(fH, r)))
+        else:
+            st.H = fH
         own = st.ghost.get('OWN')
-        if own is not None:
-            for new, old in ((st.DH, oldDH), (st.DV, oldDV), (st.DL, oldDL), (st.LS, oldLS)):
-                st.assume(z3.ForAll([r], z3.Implies(z3.Select(own, r), z3.Select(new, r) == z3.Select(old, r)),
-                                    patterns=[z3.Select(new, r)]))
-        # immutable objects (tuples, constant singletons) never change
-        tup = self.cls('tuple').id
-        st.assume(z3.ForAll([r], z3.Implies(z3.Select(st.CL, r) == I(tup), z3.Select(st.LS, r) == z3.Select(oldLS, r)),
-                            patterns=[z3.Select(st.LS, r)]))
+        keep = z3.Select(own, r) if own is not None else FALSE
+        tup = z3.Select(st.CL, r) == I(self.cls('tuple').id)
+        st.DH = z3.Lambda([r], z3.If(keep, z3.Select(oldDH, r), z3.Select(fDH, r)))
+        st.DV = z3.Lambda([r], z3.If(keep, z3.Select(oldDV, r), z3.Select(fDV, r)))
+        st.DL = z3.Lambda([r], z3.If(keep, z3.Select(oldDL, r), z3.Select(fDL, r)))
+        st.LS = z3.Lambda([r], z3.If(OR(keep, tup), z3.Select(oldLS, r), z3.Select(fLS, r)))
         self.assumptions_used.add('A-PRIV: user code does not write attributes of plumpy-internal objects ('
                                   + ', '.join(p.name for p in protected) + ') nor containers owned by them')
 
@@ -320,11 +323,13 @@ class Builtin2Mixin:
         self.record_user_call(st, fv.term, args)
         self.havoc_user(st)
         outs = []
-        res = SV(smt.fresh('ures', Val))
+        res = SV(smt.fresh('ures', Val), tag='user_result')
         st.assume(self.older(st, res.term))
+        self.hstore(st, r_of(st.TR[z3.Length(st.TR) - 1]), 'result', res.term)
         if self.config.get('user_raises', True):
             s2 = st.copy()
             e = self.user_exception(s2)
+            self.hstore(s2, r_of(s2.TR[z3.Length(s2.TR) - 1]), 'raised', e.term)
             outs.append(Out('raise', s2, e))
         outs.append(Out('ok', st, res))
         return outs
@@ -348,6 +353,8 @@ class Builtin2Mixin:
     def await_sv(self, st, v: SV, node=None):
         """await <symbolic value>: a future of a modelled class, or a user awaitable"""
         fut = self.cls('asyncio.Future')
+        if v.tag == 'user_result':
+            return self.user_await(st, v, node)
         isf = smt.simp(self.isinstance_term(st, v, fut))
         outs = []
         t, f = self.fork(st, isf)
@@ -364,9 +371,17 @@ class Builtin2Mixin:
         outs = []
         res = SV(smt.fresh('aw', Val))
         st.assume(self.older(st, res.term))
+        if v.tag == 'user_result':
+            # the awaited outcome is recorded on the event of the user call that produced the awaitable
+            evr = r_of(st.TR[z3.Length(st.TR) - 1])
+            self.hstore(st, evr, 'awaited', res.term)
+        self.assume_class_invariants(st, res)
         if self.config.get('user_raises', True):
             s2 = st.copy()
-            outs.append(Out('raise', s2, self.user_exception(s2)))
+            e = self.user_exception(s2)
+            if v.tag == 'user_result':
+                self.hstore(s2, r_of(s2.TR[z3.Length(s2.TR) - 1]), 'raised', e.term)
+            outs.append(Out('raise', s2, e))
         if self.config.get('user_await_interruptible', False):
             s3 = st.copy()
             e = self.alloc(s3, None)
@@ -378,9 +393,13 @@ class Builtin2Mixin:
         return outs
 
     def await_future(self, st, fut: SV, node=None):
+        """Suspension point: other actions run (rely-havoc under the unit's policy), then the future's outcome"""
         lib = self.lib_contract('await:asyncio.Future')
         if lib is None:
             raise Unsupported('await on a future needs the lib contract await:asyncio.Future', node)
+        st = st.copy()
+        self.havoc_user(st)
+        self.assumptions_used.add('suspension at `await <future>`: the heap is havocked under the rely of the unit (A-PRIV frame on protected classes)')
         return self.apply_contract(st, lib, None, BuiltinV('await:asyncio.Future'), Args([fut]), node)
 
     # ------------------------------------------------------------------ context managers
